@@ -375,11 +375,43 @@ def surface_program(idx, a, b, lst, lazy):
         lambda: F(max, pure=True)(da_, b) + F(max, pure=True)(da_, b),
         lambda: F(operator.getitem)(dl, slice(0, da_)) if lazy else lst[0:a],
         lambda: F(_ident)(iter([da_, b])) if lazy else [a, b],
+        # right-hand and unary operators, comparisons
+        lambda: (b - da_, 2 ** da_, b // da_, [1] * da_, -da_, abs(-da_), ~da_, +da_) if not lazy else
+                delayed(tuple)([b - da_, 2 ** da_, b // da_, [1] * da_, -da_, abs(-da_), ~da_, +da_]),
+        lambda: (da_ < b, da_ <= b, da_ != b, da_ >= b, da_ & b, da_ ^ b, da_ << 1, da_ >> 1) if not lazy else
+                delayed(tuple)([da_ < b, da_ <= b, da_ != b, da_ >= b, da_ & b, da_ ^ b, da_ << 1, da_ >> 1]),
+        # attribute chains and methods with keyword arguments
+        lambda: D(complex(a, b)).real + D(complex(a, b)).conjugate().imag,
+        lambda: D("a-b-c").split("-", maxsplit=1),
+        lambda: D("%d-%d").__mod__((da_, b)) if lazy else "%d-%d" % (a, b),
+        # calling a delayed callable, apply with kwargs
+        lambda: D(_kwf)(da_, c=dl) if lazy else _kwf(a, c=lst),
+        lambda: D(sorted)(dl, reverse=True) if lazy else sorted(lst, reverse=True),
+        # an object that contains delayed values (task is not obj): list / dict / tuple / set / dataclass / namedtuple
+        lambda: D([da_, b, [dl, {"k": da_}]]),
+        lambda: D({"x": da_, da_: "y"}) if lazy else {"x": a, a: "y"},
+        lambda: D((da_, b)) if lazy else (a, b),
+        lambda: D(DC(da_, (b, da_))),
+        lambda: D(NT(da_, dl)),
+        lambda: D({da_, b + 10}) if lazy else {a, b + 10},
+        # traverse=False leaves nested Delayed objects alone: compute them explicitly afterwards
+        lambda: delayed(_ident)(delayed([a, b], traverse=False))[1] if lazy else [a, b][1],
+        # nout = 0 / 1, name=, nested nout
+        lambda: tuple(F(_ident, nout=1)((da_,))) if not lazy else delayed(tuple)(list(F(_ident, nout=1)((da_,)))),
+        lambda: len(list(F(_ident, nout=0)(()))) if lazy else 0,
+        lambda: delayed(a, name="given-name-%d" % idx) + 1 if lazy else a + 1,
+        # slices with delayed members, item access by delayed index
+        lambda: dl[da_ % 3:] + dl[::b] if True else None,
+        lambda: dl[da_ % 4],
+        lambda: F(_ident)(slice(None, da_, b)) if lazy else slice(None, a, b),
+        # deep sharing: the same delayed value used many times
+        lambda: F(sum)([da_ * i for i in range(6)]) + F(sum)([da_ * i for i in range(6)]),
+        lambda: F(dict)([(i, da_ + i) for i in range(3)]) if lazy else {i: a + i for i in range(3)},
     ]
     return progs[idx % len(progs)]()
 
 
-N_SURFACE = 22
+N_SURFACE = 44
 
 
 def _plain(x):
@@ -389,6 +421,8 @@ def _plain(x):
         return ("NT", _plain(x.p), _plain(x.q))
     if isinstance(x, dict):
         return ("dict", sorted((repr(_plain(k)), _plain(v)) for k, v in x.items()))
+    if isinstance(x, (set, frozenset)):
+        return ("set", sorted(repr(_plain(e)) for e in x))
     if isinstance(x, (list, tuple)):
         return (type(x).__name__, [_plain(e) for e in x])
     if isinstance(x, slice):
@@ -399,11 +433,12 @@ def _plain(x):
 
 
 def case_surface(ctx, inp):
+    import dask
     idx, a, b, lst = inp["idx"], inp["a"], inp["b"], inp["lst"]
     want = surface_program(idx, a, b, lst, lazy=False)
     try:
         d = surface_program(idx, a, b, lst, lazy=True)
-        got = d.compute(scheduler=inp.get("scheduler", "sync"))
+        got = dask.compute(d, scheduler=inp.get("scheduler", "sync"))[0]
     except Exception as e:
         ctx.fail(f"a delayed program raised {type(e).__name__}: {str(e)[:150]}", observed=type(e).__name__,
                  expected=repr(_plain(want))[:300])
@@ -442,7 +477,94 @@ def case_nout(ctx, inp):
     ctx.branch("nout")
 
 
-CASES = {"sym": case_sym, "purekey": case_purekey, "surface": case_surface, "nout": case_nout}
+def case_keys(ctx, inp):
+    """the key rules of delayed: pure / impure / named, for functions, methods and wrapped objects"""
+    import dask
+    from dask import delayed
+    n = inp["n"]
+    f_pure, f_imp = delayed(_pairs, pure=True), delayed(_pairs)
+    checks = [
+        ("pure call twice -> same key", f_pure(n, 1).key == f_pure(n, 1).key, True),
+        ("pure call, other argument -> other key", f_pure(n, 1).key == f_pure(n + 1, 1).key, False),
+        ("pure call, other keyword -> other key", delayed(_kwf, pure=True)(n, b=1).key == delayed(_kwf, pure=True)(n, b=2).key, False),
+        ("pure call, same keywords in another order -> same key",
+         delayed(_kwf, pure=True)(n, b=1, c=2).key == delayed(_kwf, pure=True)(n, c=2, b=1).key, True),
+        ("impure call twice -> different keys", f_imp(n, 1).key == f_imp(n, 1).key, False),
+        ("pure=True at call time", f_imp(n, 1, pure=True).key == f_imp(n, 1, pure=True).key, True),
+        ("dask_key_name", f_imp(n, 1, dask_key_name="given").key, "given"),
+        ("delayed(obj, name=)", delayed(n, name="obj-name").key, "obj-name"),
+        ("delayed(obj) twice -> different keys", delayed(n).key == delayed(n).key, False),
+        ("delayed(obj, pure=True) twice -> same key", delayed(n, pure=True).key == delayed(n, pure=True).key, True),
+        ("delayed(obj, pure=True), other object -> other key", delayed(n, pure=True).key == delayed(n + 1, pure=True).key, False),
+        ("pure function leaf: same function -> same key", delayed(_pairs, pure=True).key == delayed(_pairs, pure=True).key, True),
+        ("pure function leaf: other nout -> other key", delayed(_pairs, pure=True).key == delayed(_pairs, pure=True, nout=3).key, False),
+        ("pure method call twice -> same key", delayed("abca").count("a", pure=True).key == delayed("abca").count("a", pure=True).key, False),
+        ("pure method call on one object twice -> same key", None, None),
+        ("method dask_key_name", delayed("abca").count("a", dask_key_name="cnt").key, "cnt"),
+        ("operators are pure", (delayed(n, name="x") + 1).key == (delayed(n, name="x") + 1).key, True),
+        ("operators, other operand -> other key", (delayed(n, name="x") + 1).key == (delayed(n, name="x") + 2).key, False),
+        ("getitem is pure", delayed([n], name="l")[0].key == delayed([n], name="l")[0].key, True),
+        ("getattr key is a function of object key and attribute", delayed(n, name="x").real.key == delayed(n, name="x").real.key, True),
+        ("getattr, other attribute -> other key", delayed(n, name="x").real.key == delayed(n, name="x").imag.key, False),
+    ]
+    obj = delayed("abca", name="s")
+    checks[14] = ("pure method call on one object twice -> same key", obj.count("a", pure=True).key == obj.count("a", pure=True).key, True)
+    with dask.config.set(delayed_pure=True):
+        checks.append(("config delayed_pure: call twice -> same key", f_imp(n, 1).key == f_imp(n, 1).key, True))
+        checks.append(("config delayed_pure: method twice -> same key", obj.count("a").key == obj.count("a").key, True))
+    for what, got, want in checks:
+        if got != want:
+            ctx.fail("key rule violated: " + what, observed=got, expected=want)
+    # the keys are only names: every variant computes the same value
+    vals = dask.compute(f_pure(n, 1), f_imp(n, 1), f_imp(n, 1, pure=True), f_imp(n, 1, dask_key_name="given2"), scheduler="sync")
+    if any(v != _pairs(n, 1) for v in vals):
+        ctx.fail("pure / impure / named calls of one function compute different values", observed=repr(vals))
+    ctx.branch("keys")
+
+
+def case_collarg(ctx, inp):
+    """dask collections passed to delayed functions are computed and finalized first"""
+    import numpy as np
+    import dask
+    import dask.array as da
+    import dask.bag as db
+    from dask import delayed
+    n = inp["n"]
+    x = np.arange(n + 2)
+    arr = da.from_array(x, chunks=2)
+    bag = db.from_sequence(list(range(n + 1)), npartitions=2)
+    progs = [
+        (delayed(np.sum)(arr + 1), (x + 1).sum()),
+        (delayed(_ident)([arr.sum(), 1]), [x.sum(), 1]),
+        (delayed(sorted)(bag), sorted(range(n + 1))),
+        (delayed(len)(bag.map(_ident)) + delayed(int)(arr.max()), n + 1 + int(x.max())),
+        (delayed(_ident)({"a": arr, "b": (bag, 1)}), {"a": x, "b": (list(range(n + 1)), 1)}),
+    ]
+    d, want = progs[inp["idx"] % len(progs)]
+    try:
+        got = d.compute(scheduler=inp.get("scheduler", "sync"))
+    except Exception as e:
+        ctx.fail(f"a delayed call on a dask collection raised {type(e).__name__}: {str(e)[:150]}", observed=type(e).__name__)
+        return
+
+    def canon(v):
+        if isinstance(v, np.ndarray):
+            return ("nd", v.tolist())
+        if isinstance(v, np.generic):
+            return ("v", v.item())
+        if isinstance(v, dict):
+            return ("dict", sorted((k, canon(x)) for k, x in v.items()))
+        if isinstance(v, (list, tuple)):
+            return (type(v).__name__, [canon(e) for e in v])
+        return ("v", v)
+    if canon(got) != canon(want):
+        ctx.fail("a delayed call on a dask collection computes a different value than the eager call on the computed collection",
+                 observed=repr(canon(got))[:300], expected=repr(canon(want))[:300])
+    ctx.branch(f"collarg-{inp['idx'] % len(progs)}")
+
+
+CASES = {"sym": case_sym, "purekey": case_purekey, "surface": case_surface, "nout": case_nout, "keys": case_keys,
+         "collarg": case_collarg}
 
 
 # ----------------------------------------------------------------------------------------------
@@ -560,6 +682,10 @@ def generate(ctx):
                           "scheduler": rng.choice(["sync", "threads"])}
     for _ in range(ctx.n(10, 50)):
         yield "nout", {"n": rng.randint(0, 5), "m": rng.randint(0, 5), "pure": rng.random() < 0.5}
+    for i in range(ctx.n(6, 30)):
+        yield "keys", {"n": rng.randint(0, 9)}
+    for i in range(ctx.n(15, 100)):
+        yield "collarg", {"idx": i, "n": rng.randint(1, 5), "scheduler": rng.choice(["sync", "threads"])}
 
 
 def search(ctx):
